@@ -533,8 +533,11 @@ func (x *decExec) doWriteMatch(op DOp) {
 			x.report("C05", "WriteMatch(m=%d, o=%d) rejected (%v) but reports n=%d", op.M, op.O, err, n)
 		}
 	case err == nil:
-		if op.M > 1<<24 {
-			x.report("C05", "WriteMatch accepted a match of length %d", op.M)
+		if op.M > 1<<26 {
+			// The model does not expand matches of more than 64 MiB. (A
+			// buffer whose capacity has grown that far may accept one:
+			// BufferSize follows cap(Data).) The case ends here without a
+			// verdict.
 			x.dead = true
 			return
 		}
@@ -610,7 +613,7 @@ func (x *decExec) doWriteBlock(op DOp) {
 		litPos += int(s.LitLen)
 		have += int(s.LitLen) + int(s.MatchLen)
 		if int64(have)-int64(len(x.all)) > 1<<26 {
-			x.report("C05", "%s consumed sequences expanding to more than 64 MiB", what)
+			// beyond what the model expands: no verdict
 			x.dead = true
 			return
 		}
